@@ -147,6 +147,26 @@ def run_labeling(acc, subj, pname, X, lab, tier):
                     acc.violation(subj.name, "restriction_changes_utilities", "utilities of %s: with all candidates %s, restricted %s" % (
                         list(sub), np.round(a, 6).tolist(), np.round(b_, 6).tolist()), wit, {"n_sub": len(sub)}, rep("restrict", sub=list(sub)),
                         size0 + len(sub))
+        # ---- restriction under the real generator (integer seed): the random stream a strategy draws from (bootstrap samples, tie breaks) is
+        # derived from the seed and the data, not from the number of candidates that happen to be passed
+        ref_real = PR.run_query(subj, X, y, None, 1, T.Tape(), "observe", seed=0, own_rng=False)
+        acc.transitions += 1
+        if ref_real[0] == "ok" and len(u) > 1:
+            Ur = np.asarray(ref_real[2], dtype=float)[0]
+            for sub in [(i,) for i in u] + ([tuple(j for j in u if j != i) for i in u] if len(u) > 2 else []):
+                key = (subj.name, pname, lab, "restrict-real", sub)
+                o = PR.run_query(subj, X, y, np.array(sub), 1, T.Tape(), "observe", seed=0, own_rng=False)
+                acc.transitions += 1
+                acc.case(key)
+                if o[0] != "ok":
+                    continue
+                acc.traces_validated += 1
+                a, b_ = Ur[list(sub)], np.asarray(o[2], dtype=float)[0][list(sub)]
+                if not _close(a, b_):
+                    acc.violation(subj.name, "restriction_changes_utilities", "real generator, seed 0: utilities of %s with all candidates %s, restricted %s" % (
+                        list(sub), np.round(a, 6).tolist(), np.round(b_, 6).tolist()), dict(base_wit, relation="restriction to candidates %s (real generator)" % (list(sub),)),
+                        {"n_sub": len(sub), "real": True}, rep("restrict", sub=list(sub)), size0 + len(sub))
+                    break
         # ---- permutation equivariance ---------------------------------------------------
         other = _q(subj, X, y, None, 1, seed=1)
         acc.transitions += 1
